@@ -131,7 +131,7 @@ CHECKS = {
                        "d-jitter, constructor/Reset panic exactly outside the documented domain, nothing delivered after Stop"),
         "level_note": "Trusts testing/synctest's fake clock (go1.26.8) and the arithmetic in c20time; ties (remaining == d, already-done context with a near deadline) accept both outcomes; only the lower spacing bound is asserted.",
         "technique": "property-based testing (rapid) on a fake clock (testing/synctest) with exact time arithmetic as oracle",
-        "rule": ("kinds 'sleep' and 'ticker'. non-trivial: sleep = a deadline strictly inside (0,d), a mid-sleep cancel, or deadline+cancel; ticker = in-domain with jitter in {0, d-1} or a Reset/Stop in the timeline; distinct = distinct plan JSON"),
+        "rule": ("kinds 'sleep' and 'ticker' (fake clock) and 'sleep-old-timers' (real clock, asynctimerchan=1: sequences of 2-30 SleepContext calls, some cancelled within 100 us of their own timer firing; nil needs >= d of measured time; non-trivial = at least 3 calls). non-trivial: sleep = a deadline strictly inside (0,d), a mid-sleep cancel, or deadline+cancel; ticker = in-domain with jitter in {0, d-1} or a Reset/Stop in the timeline; distinct = distinct plan JSON"),
         "assumptions": ["testing/synctest fake clock", "rapid v1.3.0; go1.26.8"],
         "jobs": [{"pkg": "c20time", "kinds": ["sleep", "ticker"], "scale_thorough": 10, "shards_thorough": 16},
                  {"pkg": "c20old", "kinds": ["sleep-old-timers"], "scale_thorough": 4, "shards_thorough": 4}],
@@ -142,7 +142,7 @@ CHECKS = {
                        "generated Signal/Broadcast/gate-opening/context-cancel steps (quiesced or racing), then all gates open and the woken waiters are counted after quiescence; lock ownership is tracked by the Locker itself"),
         "level_note": "Schedules are explored structurally (which waiter is in the window/parked when each Signal lands, quiesced vs racing steps) and by repetition; the Go scheduler itself is not enumerated. One open known finding (coalesced Signals).",
         "technique": "property-based testing (rapid) of generated waiter/signal scripts in testing/synctest bubbles; counting oracle after quiescence",
-        "rule": ("plans: k in 1..5 waiters each parked or held in the unlock-to-park window, 0-8 steps. non-trivial = k >= 2 and a Signal or Broadcast is issued while some waiter is in the window; distinct = distinct plan JSON; every plan is executed R times (quick 3, thorough 10)"),
+        "rule": ("kinds cond (plans: k in 1..5 waiters each parked or held in the unlock-to-park window, some with a context that has already ended, up to 3 late entrants that enter Wait in the middle of the 0-8 steps) and broadcast-storm (K parked waiters, noise goroutines doing ended-context Waits and/or Signals while one Broadcast is issued, 100-400 rounds per case; always non-trivial). cond plans: non-trivial = at least 2 waiters and a Signal or Broadcast is issued while some waiter is in the window; distinct = distinct plan JSON; every plan is executed R times (quick 3, thorough 10)"),
         "assumptions": ["testing/synctest durable-block detection", "the gated Locker identifies the unlocking waiter because Lock is exclusive", "rapid v1.3.0; go1.26.8"],
         "jobs": [{"pkg": "c16cond", "kinds": ["cond", "broadcast-storm"], "scale_thorough": 10, "shards_thorough": 16, "replay_reps": 50},
                  {"pkg": "c16cond", "race": True, "kinds": ["cond", "broadcast-storm"], "scale_quick": 0.15, "scale_thorough": 2, "shards_thorough": 4, "replay_reps": 20}],
@@ -154,7 +154,7 @@ CHECKS = {
                        "before its oldest item waited maxWait (exact), not held back beyond max(call, arrival)+maxWait (exact), context expiry free of cost, error after all items, Close returns with the source closed once and no goroutine left"),
         "level_note": "Exact fake-time arithmetic needs no tolerance; select ties are explored by repetition (R=3/10). Trusts testing/synctest and sk.RecStream's hand-over timestamps.",
         "technique": "property-based testing (rapid) of generated timelines in testing/synctest bubbles; partition + exact fake-time oracle",
-        "rule": ("plans: 0-30 items with gaps from {0, maxWait/3, maxWait, 3*maxWait}, 0-25 consumer steps then close or drain. non-trivial = an underfilled batch was handed out by timer, or Close was issued while the producer held "
+        "rule": ("kinds batch (bubble plans: 0-30 items with gaps from {0, maxWait/3, maxWait, 3*maxWait}, 0-25 consumer steps then close or drain; maxWait 1 s or - 'huge' - MaxInt64 ns; 'scribble' consumers overwrite the spare capacity of every batch they own) and batch-old-timers (real clock, asynctimerchan=1: partition, sizes, lower bound on the age of an underfilled batch; non-trivial = at least 2 batches). batch plans: non-trivial = an underfilled batch was handed out by timer, or Close was issued while the producer held "
                  "undelivered items, or a waiter followed a cancelled waiter; distinct = distinct plan JSON; each plan runs R times"),
         "assumptions": ["testing/synctest fake clock", "sk.RecStream timestamps", "rapid v1.3.0; go1.26.8"],
         "jobs": [{"pkg": "c11batch", "kinds": ["batch"], "scale_thorough": 10, "shards_thorough": 16, "replay_reps": 30},
@@ -168,7 +168,7 @@ CHECKS = {
                        "history is judged: only sent values, none twice, per-sender FIFO, accepted-before-Close delivered before the end, sticky end, valid results, and no call still blocked at a quiescence point where the property says it must have returned"),
         "level_note": "Schedules are explored by script structure and repetition, not exhaustively; 'stuck' is decided by durable-block detection, not timeouts. Sends are never started after the sender's Close was started (misuse).",
         "technique": "property-based testing (rapid) of generated actor scripts in testing/synctest bubbles; history-invariant oracle",
-        "rule": ("plans: buffer in {0,1,2,5}, 1-3 senders, 1-24 steps (incl. tryburst: all senders TrySend at once) + drain epilogue; non-trivial = Close called while accepted values were still buffered (buffer >= 1), or Sends of two sender actors overlapped, or a Send was blocked when the receiver closed; distinct = distinct plan JSON; R=5/20 executions each"),
+        "rule": ("kinds pipe (scripted plans: buffer in {0,1,2,5}, 1-3 senders, 1-24 steps incl. tryburst = all senders TrySend at once, contexts that end by cancel or - 'deadlines' plans - by deadline on the fake clock and may be reused after they ended, + drain epilogue) and pipe-storm (500-3000 short-lived pipes per case on real goroutines: 1-4 values then Close after a swept busy delay, blocking or ended-context-polling consumer; every storm case counts as non-trivial); pipe plans: non-trivial = Close called while accepted values were still buffered (buffer >= 1), or Sends of two sender actors overlapped, or a Send was blocked when the receiver closed; distinct = distinct plan JSON; R=5/20 executions each"),
         "assumptions": ["testing/synctest durable-block detection", "logical stamps taken by the actors bracket the library calls", "rapid v1.3.0; go1.26.8"],
         "jobs": [{"pkg": "c10pipe", "kinds": ["pipe", "pipe-storm"], "scale_thorough": 8, "shards_thorough": 16, "replay_reps": 200},
                  {"pkg": "c10pipe", "race": True, "kinds": ["pipe", "pipe-storm"], "scale_quick": 0.15, "scale_thorough": 2, "shards_thorough": 4, "replay_reps": 20}],
@@ -204,7 +204,7 @@ CHECKS = {
                        "bufferSize+parallelism+1, no deadlock (durable-block detection), failures are errors the source or f returned, never a result beyond a failed item, Close returns with the source closed once and no goroutine left"),
         "level_note": "The gauge is read only at quiescence, where both counters are exact; interleavings come from generated latencies/paces and repetition.",
         "technique": "property-based testing (rapid) in testing/synctest bubbles; order/gauge/error-provenance oracle",
-        "rule": ("kinds map-iterator, map-stream. non-trivial = completion order differed from source order AND the gauge reached its bound (back-pressure engaged), or a failure surfaced with results still in flight; distinct = distinct plan JSON; R=3/10"),
+        "rule": ("kinds map-iterator, map-stream (scripted bubble plans) and map-storm (5000-40000 zero-latency items per case in a bubble, every (parallelism, buffer) shape; non-trivial = parallelism >= 2). scripted plans: non-trivial = completion order differed from source order AND the gauge reached its bound (back-pressure engaged), or a failure surfaced with results still in flight; distinct = distinct plan JSON; R=3/10"),
         "assumptions": ["testing/synctest", "rapid v1.3.0; go1.26.8"],
         "jobs": [{"pkg": "c14mapit", "kinds": ["map-iterator", "map-stream", "map-storm"], "scale_thorough": 8, "shards_thorough": 16, "replay_reps": 30},
                  {"pkg": "c14mapit", "race": True, "kinds": ["map-iterator", "map-stream", "map-storm"], "scale_quick": 0.1, "scale_thorough": 2, "shards_thorough": 4, "replay_reps": 20}],
@@ -230,7 +230,7 @@ CHECKS = {
         "level_note": "Interleavings come from generated times (ties at the same fake instant race for real) and repetition. The trigger obligation is only demanded for calls at least 2 x run-time before the stop, the periodic bound is deliberately loose.",
         "technique": "property-based testing (rapid) of generated timelines in testing/synctest bubbles; run-log invariants",
         "rule": ("kinds group (timelines: 1-5 registrations, 0-12 trigger events incl. concurrent bursts, one stop incl. parent cancel/deadline), stop-storm (goroutines keep calling Do while the group is stopped, 5-30 rounds per case), "
-                 "trigger-first-call (racing first calls of a trigger function, then triggers during runs), pot-old-timers (PeriodicOrTrigger under asynctimerchan=1 on the real clock). group plans: non-trivial = a trigger call landed while its function was running, or a registration raced with the stop; distinct = distinct plan JSON; R=3/10"),
+                 "trigger-first-call (racing first calls of a trigger function, then triggers during runs), trigger-storm (a trigger 0-256 busy iterations after a run has finished, 1000-5000 rounds per case, decided at quiescence), pot-old-timers (PeriodicOrTrigger under asynctimerchan=1 on the real clock). group plans: non-trivial = a trigger call landed while its function was running, or a registration raced with the stop; distinct = distinct plan JSON; R=3/10"),
         "assumptions": ["testing/synctest", "rapid v1.3.0; go1.26.8"],
         "jobs": [{"pkg": "c17old", "kinds": ["pot-old-timers"], "scale_thorough": 4, "shards_thorough": 4},
                  {"pkg": "c17group", "kinds": ["group", "stop-storm", "trigger-first-call", "trigger-storm"], "scale_thorough": 10, "shards_thorough": 16, "replay_reps": 30},
